@@ -10,9 +10,10 @@ A template is a tree (JSON-able lists; a *body* is a list of nodes):
   PS   ::= ["assign", var, string (may contain one newline)] | ["pyif", C, var, s1, s2] | ["ret"] | ["brk"] | ["cont"]
   FL   ::= {"buffered": bool, "filters": [ids]}
   E    ::= ["lit", s] | ["var", v] | ["cat", E, E] | ["boom"] | ["kboom"] | ["filt", i, E] | ["call", def id, [E…]]
-         | ["callerbody"] | ["loop", attr] | ["loopvar"] | ["closed"]
+         | ["callerbody"] | ["loop", attr] | ["loopvar"] | ["closed"] | ["pulled"]
   C    ::= ["truthy", E] | ["loopc", attr]               (condition of `% if/elif`, of a python `if`)
-  ITER ::= ["list", [E…]] | ["str", s] | ["gen", [E…]] | ["iter", [E…]]
+  ITER ::= ["list", [E…]] | ["str", s] | ["gen", [E…]] | ["iter", [E…]] | ["tgen", [E…]]  (tgen: lazy, every item an
+           evaluation point of its own, counted by pulledcount())
   EXC  ::= None (bare except) | "Exception" | "Boom" | "KeyError" | "(KeyError, Boom)"
   attr ::= index | first | last | even | odd | reverse_index | cycle | parent.index
 
@@ -70,6 +71,8 @@ def ex_src(e):
         return "str(loop)"
     if k == "closed":
         return "closedcount()"
+    if k == "pulled":
+        return "pulledcount()"
     raise ValueError(e)
 
 
@@ -107,6 +110,8 @@ def iter_src(it):
         return "gen([%s])" % ", ".join(ex_src(e) for e in it[1])
     if k == "iter":
         return "iter([%s])" % ", ".join(ex_src(e) for e in it[1])
+    if k == "tgen":
+        return "tgen([%s])" % ", ".join(ex_src(e) for e in it[1])
     raise ValueError(it)
 
 
@@ -540,6 +545,8 @@ def _n_ex(e, lp):
         return "str(__loopvar)"
     if k == "closed":
         return "closedcount()"
+    if k == "pulled":
+        return "pulledcount()"
     raise ValueError(e)
 
 
@@ -653,13 +660,19 @@ def _n_body(N, body, lp, enable_loop, top=False):
                 N.ind -= 1
         elif k == "for":
             u = N.fresh()
-            N.w("__items%d = list(%s)" % (u, _n_iter(n[2], lp)))
             inner = ("__lp%d" % u) if enable_loop else lp
-            N.w("for __i%d, v%d in enumerate(__items%d):" % (u, n[1], u))
+            if n[2][0] == "tgen":
+                # a lazy iterable is consumed lazily, as Python's `for` does; its length is not known
+                N.w("for __i%d, v%d in enumerate(tgen(%s)):" % (u, n[1], _n_iter(n[2], lp)))
+                nlen = "None"
+            else:
+                N.w("__items%d = list(%s)" % (u, _n_iter(n[2], lp)))
+                N.w("for __i%d, v%d in enumerate(__items%d):" % (u, n[1], u))
+                nlen = "len(__items%d)" % u
             N.ind += 1
             N.w("pass")
             if enable_loop:
-                N.w("__lp%d = NLoop(__i%d, len(__items%d), %s)" % (u, u, u, lp if lp else "None"))
+                N.w("__lp%d = NLoop(__i%d, %s, %s)" % (u, u, nlen, lp if lp else "None"))
             _n_hoist(N, n[3], inner, enable_loop, top)
             _n_body(N, n[3], inner, enable_loop, top)
             N.ind -= 1
@@ -741,7 +754,7 @@ def native_run(body, k, enable_loop=True, loopvar="LOOPVAR"):
     from harness import c03_rt as R
     src = native_source(body, enable_loop)
     env = {"boom": R.boom, "kboom": R.kboom, "below": R.below, "Boom": R.Boom, "cm": R.cm, "pdepth": R.pdepth,
-           "closedcount": R.closedcount, "NLoop": R.NLoop, "NCaller": R.NCaller, "noloop": R.noloop}
+           "closedcount": R.closedcount, "tgen": R.tgen, "pulledcount": R.pulledcount, "NLoop": R.NLoop, "NCaller": R.NCaller, "noloop": R.noloop}
     for i in range(6):
         env["flt%d" % i] = getattr(R, "flt%d" % i)
     exec(compile(src, "<native>", "exec"), env)
@@ -901,6 +914,7 @@ class _Sc:
         self.loop_hidden = False  # the loop exists but the scope itself does not mention it (closures may)
         self.nested_for = False   # two % for of this callable enclose: loop.parent.index allowed
         self.unsized = False      # the innermost for iterates a generator / iterator
+        self.lazy = False         # … a lazy one (tgen): last / reverse_index are never asked of it
         self.in_call_body = False  # directly in a <%call> body (under control lines): defs here are exported into
                                    # `ccall` next to body(), they are no closures of the body
         self.call_body_loop = False  # … and a `% for` of that body encloses this point
@@ -962,7 +976,7 @@ class Gen:
         if self.k.lowerable:
             return "index"
         attrs = list(SIZED_FREE)
-        if not sc.unsized or self.k.unsized_len:
+        if (not sc.unsized or self.k.unsized_len) and not sc.lazy:
             attrs += ["last", "reverse_index"]
         if sc.nested_for and sc.loop == "direct":
             attrs += ["parent.index"]
@@ -980,6 +994,8 @@ class Gen:
             return ["kboom"] if (r.random() < 0.2 and not self.k.lowerable) else ["boom"]
         if sc.vars and r.random() < 0.5:
             return ["var", r.choice(sc.vars)]
+        if r.random() < 0.08 and not self.k.lowerable:
+            return ["pulled"]         # how many items the lazy iterables have produced so far
         return ["lit", self.lit()]
 
     def expr(self, sc, depth=0, loop_ok=True, hidden_ok=False):
@@ -1015,7 +1031,7 @@ class Gen:
         r = self.rng
         if sc.loop and not sc.loop_hidden and self.k.enable_loop and r.random() < 0.3 and not self.k.lowerable:
             attrs = ["first", "even", "odd", "index"]
-            if not sc.unsized or self.k.unsized_len:
+            if (not sc.unsized or self.k.unsized_len) and not sc.lazy:
                 attrs += ["last", "reverse_index"]
             return ["loopc", r.choice(attrs)]
         e = self.expr(sc, 1, loop_ok=False)
@@ -1144,17 +1160,21 @@ class Gen:
         d = sc.depth + 1
         v = self.fresh_var()
         n = r.choice([0, 1, 1, 2, 2, 3, 4])
-        kind = "list" if self.k.lowerable else r.choice(["list", "list", "list", "str", "gen", "iter"])
+        kind = "list" if self.k.lowerable else r.choice(["list", "list", "list", "str", "gen", "iter", "tgen", "tgen"])
         if kind == "str":
             it = ["str", "".join(r.choice("pqr789") for _ in range(n))]
+        elif kind == "tgen":
+            # the items themselves are plain (the evaluation point is the production of the item)
+            it = ["tgen", [(["var", r.choice(sc.vars)] if sc.vars and r.random() < 0.4 else ["lit", self.lit(1)])
+                           for _ in range(n)]]
         else:
             it = [kind, [self.expr(sc, 1, loop_ok=r.random() < 0.3 and not sc.no_loopctx and not sc.no_loop_all)
                          for _ in range(n)]]
         use_loop = r.random() < self.k.p_loop_use and self.k.enable_loop and not sc.no_loopctx and not sc.no_loop_all
         s2 = sc.sub(depth=d, in_loop=True, loop="direct" if (use_loop or sc.loop == "direct") else sc.loop,
-                    nested_for=(sc.loop == "direct"), unsized=kind in ("gen", "iter"),
+                    nested_for=(sc.loop == "direct"), unsized=kind in ("gen", "iter", "tgen"), lazy=kind == "tgen",
                     call_body_loop=sc.in_call_body or sc.call_body_loop,
-                    unsized_chain=sc.unsized_chain or kind in ("gen", "iter"))
+                    unsized_chain=sc.unsized_chain or kind in ("gen", "iter", "tgen"))
         if not use_loop and sc.loop:
             # `loop` inside this body would denote this loop: LoopVariable then mangles it
             s2.loop = "direct"
@@ -1198,7 +1218,7 @@ class Gen:
         where = r.choice(["direct", "direct", "except", "iter"] if self.k.lowerable
                          else ["direct", "direct", "elif", "except", "pyif", "iter"])
         attr = self.loop_attr(s2)
-        cattrs = ["index", "first", "odd"] + ([] if s2.unsized and not self.k.unsized_len else ["last"])
+        cattrs = ["index", "first", "odd"] + ([] if (s2.unsized and not self.k.unsized_len) or s2.lazy else ["last"])
         if where == "direct":
             body.insert(r.randint(0, len(body)), ["expr", ["loop", attr]])
         elif where == "elif":
